@@ -59,6 +59,16 @@ def _is_null(v) -> bool:
     return False
 
 
+def _column_cells(d, col_name):
+    """
+    The cells of the column(s) named col_name: a Pandas frame may hold several columns of one name.
+    """
+    col = d[col_name]
+    if isinstance(col, pd.DataFrame):
+        return [vi for j in range(col.shape[1]) for vi in col.iloc[:, j]]
+    return col
+
+
 def is_data_frame(d) -> bool:
     """
     Check if d is a Pandas or Polars data frame
@@ -86,7 +96,9 @@ def non_null_types_in_frame(d) -> Dict[str, Optional[Set[Type]]]:
         )
     result = dict()
     for col_name in d.columns:
-        types_seen = {type(vi) for vi in d[col_name] if not _is_null(vi)}
+        types_seen = {
+            type(vi) for vi in _column_cells(d, col_name) if not _is_null(vi)
+        }
         if len(types_seen) < 1:
             result[col_name] = None
         else:
@@ -167,7 +179,7 @@ class SchemaRaises(SchemaBase):
                 msgs.append(f"missing required column '{col_name}'")
             else:
                 if (spec_i is not None) and (d.shape[0] > 0):
-                    for vi in d[col_name]:
+                    for vi in _column_cells(d, col_name):
                         if not _is_null(vi):
                             msg_i = self._check_spec(
                                 expected_type=spec_i, observed_value=vi
